@@ -24,12 +24,11 @@ WINDOPS = ["EQ", "GE", "GT", "LE", "LT", "NE", "SET", "CLR"]
 TAGKEY = {
     "alloczero": "getdata/zero-length-buffer-internal-error",
     "mplexseek": "getdata/mplex-lookback-reseek-range-error",
-    "empty2": "getdata/second-input-empty",
     "unaligned": "getdata/multirate-unaligned-start",
     "mplexrate": "getdata/mplex-multirate",
     "rawpad": "getdata/raw-bof-pad-native-type",
 }
-TAGPRIO = ["alloczero", "mplexseek", "empty2", "unaligned", "mplexrate", "rawpad"]
+TAGPRIO = ["alloczero", "mplexseek", "unaligned", "mplexrate", "rawpad"]
 
 
 def dbits(x):
@@ -38,6 +37,28 @@ def dbits(x):
 
 def fmtd(x):
     return repr(float(x))
+
+
+VARIANT = "0 0 0 0 0"      # flags of translate/tr_readpath.py, handed to the model driver
+
+
+def read_variant(chk):
+    """run the translator on the tree under test; returns the driver's V arguments"""
+    global VARIANT
+    rc, out = vlib.sh("python3 %s/translate/tr_readpath.py --print-only" % vlib.VERIF)
+    flags = {}
+    for l in out.splitlines():
+        if l.startswith("variant "):
+            for kv in l.split()[1:]:
+                k, v = kv.split("=")
+                flags[k] = v
+    problems = [l for l in out.splitlines() if l.startswith("PROBLEM")]
+    order = ["v_align", "v_rawpad", "v_alloc0", "v_clamp", "v_bofceil"]
+    if rc != 0 or any(k not in flags for k in order):
+        problems.append("PROBLEM translator failed: " + out[-300:])
+    VARIANT = " ".join(flags.get(k, "0") for k in order)
+    chk.cov["source_variant"] = flags
+    return problems
 
 
 def load_staged_known(chk, pid):
@@ -444,7 +465,7 @@ def run_cases(cases, exe, drv, root, jobs=16, want_extents=False):
         return run_stream([exe], "\n".join(lines) + "\n", env=HENV)
 
     def model_job(ch):
-        lines = []
+        lines = ["V " + VARIANT]
         for c in ch:
             lines += c.drv
             for (f, rt, s, n) in c.qs:
@@ -547,9 +568,7 @@ def judge(chk, cases, stats, exe=None):
             continue
         if c.crashed and not getattr(c, "single_crash", 0):
             # the sequence of queries crashed but no single query does: heap damage detected late
-            if any("empty2" in r[4] for r in c.res):
-                stats["bykey"][TAGKEY["empty2"]] = stats["bykey"].get(TAGKEY["empty2"], 0) + 1
-            else:
+            if True:
                 chk.violation("getdata/crash/sequence", "a sequence of gd_getdata calls crashes the process although no single call does\n" + c.format_text(),
                               {"kind": "crash", "format": c.format_text(), "queries": c.qs})
         for (q, im, model, spec, tags) in getattr(c, "res", []):
@@ -557,11 +576,7 @@ def judge(chk, cases, stats, exe=None):
             stats["queries"] += 1
             if im.get("crash"):
                 stats["crashes"] = stats.get("crashes", 0) + 1
-                # attributed to the listed use of an unwritten buffer only where the query reaches it
-                if "empty2" in tags:
-                    key = TAGKEY["empty2"]
-                else:
-                    key = "getdata/crash/%s" % ("covered" if not tags else ",".join(tags))
+                key = "getdata/crash/%s" % ("covered" if not tags else ",".join(tags))
                 stats["bykey"][key] = stats["bykey"].get(key, 0) + 1
                 if key not in seen_keys:
                     seen_keys[key] = 1
@@ -609,7 +624,7 @@ def judge(chk, cases, stats, exe=None):
             # nor where the model's own prediction contains undefined values ('?'): the outcome then depends on
             # memory content or on C undefined behaviour
             # nor for a multi-rate MPLEX: its wrong last sample is cached and seeds the next read (state)
-            if not e_model and "empty2" not in tags and "mplexrate" not in tags and "?" not in model["vals"]:
+            if not e_model and "mplexrate" not in tags and "?" not in model["vals"]:
                 # the MPLEX last-sample cache carries a defect's wrong value from one call into the next:
                 # decide on the call alone, on a fresh handle
                 alone = None
@@ -685,9 +700,9 @@ def witness_cases(rng):
     return W
 
 
-# 900003 (LINCOM count), 900004 (window before sample 0) and 900007 (sample -1 / GD_HERE) were defects of the
+# 900002 (second input exhausted), 900003 (LINCOM count), 900004 (window before sample 0) and 900007 (sample -1 / GD_HERE) were defects of the
 # pinned tree that have been repaired in /repo since; they stay as regression witnesses (any failure is a violation)
-WITNESS_KEYS = {900001: "getdata/multirate-unaligned-start", 900002: "getdata/second-input-empty",
+WITNESS_KEYS = {900001: "getdata/multirate-unaligned-start",
                 900005: "getdata/raw-bof-pad-native-type", 900006: "getdata/mplex-multirate",
                 900008: "getdata/zero-length-buffer-internal-error",
                 900009: "getdata/mplex-lookback-reseek-range-error"}
@@ -697,10 +712,12 @@ def main():
     chk = vlib.Check(PID)
     load_staged_known(chk, PID)
     t0 = time.time()
+    tr_problems = read_variant(chk)
     proved = chk.prove("Properties_C01")
     chk.cov["trusted_base"] += [
         "Coq 8.16.1 kernel, vm_compute (no native_compute)",
         "hand-written model coq/C01/Read.v of src/getdata.c (tied by the correspondence below, every run, to the library built from the working tree)",
+        "translate/tr_readpath.py: decides from the source which variant of the model applies (before/after each proposed repair); the theorems hold for every variant and the correspondence validates the choice",
         "value algebra coq/C01/Inst.v: C arithmetic via Flocq binary64 and GD.C06.Convert casts; the theorems hold for every algebra, so this is trusted only for the correspondence and for the refutation witnesses",
         "extraction: ExtrOcamlBasic only; OCaml 4.13 driver ocaml/C01/driver.ml; C harness harness/C01/rd.c (gcc -O1, -ffp-contract=off, x86-64 little-endian)",
         "generator/judge in checks/C01.py (python3)",
@@ -762,6 +779,9 @@ def main():
         if getattr(c, "res", None):
             q, im, model, spec, tags = c.res[0]
             chk.sample({"query": q, "impl": im, "spec": spec, "uncovered": tags})
+    if tr_problems and not chk.violations:
+        chk.violation("translator", "the source matches neither variant of the model: " + "; ".join(tr_problems[:3]),
+                      {"kind": "translator", "problems": tr_problems}, found=False)
     if not proved and not chk.violations:
         chk.violation("proof", "Properties_C01 does not check: " + getattr(chk, "proof_log", "")[-1500:],
                       {"kind": "proof", "theorem": "Properties_C01", "log": getattr(chk, "proof_log", "")[-4000:]}, found=False)
